@@ -2,10 +2,10 @@
 TB = ("trusted: CPython ast, documented pyparsing 3.1 combinator semantics; assumes no monkey-patching "
       "beyond the one the repo does and no computed getattr/setattr")
 ENGINES = [
-    {"name": "G", "path": "wrapsa/grammar.py", "serves_properties": ["C01", "C07", "C12", "C19"],
+    {"name": "G", "path": "wrapsa/grammar.py", "serves_properties": ["C01", "C12", "C19"],
      "kind_free_text": "abstract interpretation of module/class-level statements -> pyparsing grammar IR; "
                        "nullable/FIRST/recursion/capture-scope/layout analyses"},
-    {"name": "F", "path": "wrapsa/prog.py", "serves_properties": ["C01", "C02", "C07", "C08", "C13", "C14",
+    {"name": "F", "path": "wrapsa/prog.py", "serves_properties": ["C01", "C02", "C08", "C13", "C14",
                                                                    "C15", "C16", "C17"],
      "kind_free_text": "program index, call binding, guards, def-use, freshness, effects"},
 ]
@@ -19,6 +19,15 @@ CHECKS = {
                     "kinds are routed by type, and that qualifier markers reach the right flag and C++ spelling. "
                     "Does not decide which alternative the longest-match Or picks for ambiguous inputs.",
             "note": TB},
+    "C07": {"engine": "G+F", "design_ref": "DESIGN.md section 3 C07",
+            "technique": "static analysis: end-anchor and capture-completeness of the grammar, call-graph effect analysis (may-reject before first write on all paths), handler audit",
+            "text": "Decides: the parse root is end-anchored and is the only parse entry; every accepted token "
+                    "reaches the tree; the parser terminates structurally (no left recursion / nullable "
+                    "repetition); no handler on a path from the entry points swallows a parse/validation error; "
+                    "in every entry point all rejection points precede the first write on all paths; the "
+                    "validation sites still reject. Does not decide that every corrupted input lies outside the "
+                    "language.",
+            "note": TB + "; rejections are ParseBaseException/ValueError/AssertionError; asserts active (no -O)"},
     "C12": {"engine": "G", "design_ref": "DESIGN.md section 3 C12",
             "technique": "static analysis: grammar reconstruction + layout classification of terminals/combinators",
             "text": "Decides the necessary structural conditions for layout/comment independence of parsing: "
@@ -27,6 +36,14 @@ CHECKS = {
                     "anchored parse entry. Covers every grammar node, hence every input; does not re-prove "
                     "byte-identical generator output (follows from equal trees + C14).",
             "note": TB},
+    "C14": {"engine": "F", "design_ref": "DESIGN.md section 3 C14",
+            "technique": "static analysis: effect analysis over the call graph (nondeterminism sources, unordered collections, un-reset accumulators, provenance of write/read paths, whole-file writes)",
+            "text": "Decides the effect discipline that makes generation a repeatable function: no "
+                    "nondeterministic source or hash-ordered collection reachable, per-file state reset, every "
+                    "written path derived from a caller-chosen output location (or <stem>+constant suffix), "
+                    "reads confined to inputs/bundled template, one finished write per output. Does not decide "
+                    "OS-level atomicity under concurrent writers of the same target.",
+            "note": TB + "; insertion-ordered dict/list iteration; MatlabWrapper single-use (exempt from R3)"},
     "C19": {"engine": "G", "design_ref": "DESIGN.md section 3 C19",
             "technique": "static analysis: memoisation-enabled lint over all modules + left-recursion/nullable-repetition analysis of the grammar IR",
             "text": "Decides the structural preconditions of polynomial parsing (memoisation on, unconditional, "
@@ -36,5 +53,5 @@ CHECKS = {
 }
 PENDING = "checker not implemented yet in this revision (see DESIGN.md section 3 for the planned static rules)"
 NOT_APPLICABLE = {p: PENDING for p in
-                  ["C02", "C03", "C04", "C05", "C06", "C07", "C08", "C09", "C10", "C11",
-                   "C13", "C14", "C15", "C16", "C17", "C18"]}
+                  ["C02", "C03", "C04", "C05", "C06", "C08", "C09", "C10", "C11",
+                   "C13", "C15", "C16", "C17", "C18"]}
